@@ -10,7 +10,10 @@ print "Shadow tests failed" and leave NO file at the output path iff there is a 
 Failing assertions are planted first / last / inside a loop / after passing ones / in the last of many blocks / in main's block /
 many / all; plus ITERATION-DEPENDENT assertions (shadowlib.iter_construct): false only in the first / a middle / every-but-the-last
 iteration with the last one passing, or only in the last, in for and while loops left normally / by break / by return, in the shadow
-block itself or in a helper function it calls (then the reference stops at the assertion: the gate must be closed, the test named).  Functions without a shadow block: warning on stderr, no effect on the gate.
+block itself or in a helper function it calls (then the reference stops at the assertion: the gate must be closed, the test named).
+Which blocks run: ALL of them -- the generator gives functions 1-3 shadow blocks (false assertion in the first / a middle / the last,
+nothing else failing), puts blocks before their function, at the top or at the end of the file, and moves functions into an imported
+module while their shadow blocks stay in the compiled file (modes multi-first / multi-middle / multi-last / imported-block).  Functions without a shadow block: warning on stderr, no effect on the gate.
 Tie: Driver/ShadowGate.nanoc extracted (nvref_c03) vs the real nanoc: exit status, binary, FAILED lines + counts, warnings."""
 import os, sys, random, collections, json, hashlib
 import vlib, progen, langlib
